@@ -1,7 +1,7 @@
 # C37: stored query templates (Ledger/Template.v) — pure substitution/params tie + metamorphic run on the real stack
 PROPS['C37'] = dict(
     target='Props/C37',
-    theorems=['C37_subst_and', 'C37_subst_or', 'C37_subst_not', 'C37_subst_identity',
+    theorems=['C37_subst_and', 'C37_subst_or', 'C37_subst_not', 'C37_subst_identity', 'C37_interpolate_exact',
               'C37_overwrite_right_biased', 'C37_overwrite_idempotent', 'C37_overwrite_fieldwise',
               'C37_default_pagesize', 'C37_equiv'],
     ties=[dict(name='TIE-C templates', vh='templates', model='templates', n=dict(quick=20000, thorough=400000),
@@ -29,7 +29,7 @@ PROPS['C37'] = dict(
                 'and the page size RunQuery answered with against tpl_run_plan+tpl_normalize. Since the repairs 05-template-params-fieldwise and 06-template-non-ascii the model follows the repaired code: params objects override exactly the '
                 'fields they carry (C37_overwrite_fieldwise, C37_default_pagesize are theorems now; their former refutation witnesses are the first regression cases '
                 'of TIE-D) and literal bytes are copied unchanged (C37_subst_identity without an ASCII hypothesis). On a tree without those repairs the monitor '
-                'reports the old behaviours as untagged violations. Still open: a float64 variable beyond int64 interpolated into a string (KF-C37-interpolate-int-overflow). '
+                'reports the old behaviours as untagged violations. Also repaired (fixes/filter-07): an integral float64 variable is interpolated into a string with its exact digits (C37_interpolate_exact; bindings include 2^53+-1, +-2^63+-1, 2^64, 10^20 as json.Number and as the float64 the API decodes). '
                 'The monitor tags a mismatch with that finding only when the answer equals the direct query under exactly that deviation; anything else is a new violation.',
     trusted=['pgsem (harness/go/pgsem) executes the SQL of both the template run and the direct query (TIE-D verdicts are relative to it; both sides go through the same store code)',
              'modelled not verified: encoding/json decoding of params (times are handed to the model as parsed instants), time.Parse(RFC3339Nano) (tpl_date_ok is a '
